@@ -9,6 +9,8 @@ C10.b decisions: Delete only for marked packs without used blobs after the keep-
 C10.c without instant-delete, packs that are repacked / marked / kept-marked are never removed in that run but listed
   as to-delete - with time = now when newly marked, with their original time when they stay marked (= executor table).
 C10.d PrunePlan::new drops from the marked list every pack that is also listed unmarked.
+C10.g safe defaults: PruneOptions::default() has instant_delete = false, early_delete_index = false and a keep-delete span
+  of at least an hour.
 C10.f deletion marks are persisted: Indexer::save writes the file unless both pack lists are empty.
 C10.e new index before old index removal; index removal before pack removal (R-ORDER 13/14).
 """
@@ -74,6 +76,7 @@ def run(ctx, rep):
             ok = True
     rep.check("C10.d", "marked-duplicates-dropped", ok, where=NW.loc(), what="PrunePlan::new retains a marked entry only if the same pack is not also listed unmarked (a pack re-added by a concurrent backup is not deleted)")
     marks_persisted_rule(ctx, rep, "C10.f")
+    safe_defaults_rule(ctx, rep, "C10.g")
 
 
 def marks_persisted_rule(ctx, rep, R):
@@ -98,3 +101,29 @@ def marks_persisted_rule(ctx, rep, R):
     rep.check(R, "save/skipped-only-if-both-lists-empty", ok, where=where(SV, bb),
               what="the index file is written unless both `packs` and `packs_to_delete` are empty" if ok else
                    f"the condition that skips writing the index file looks only at {sorted(fields & {'packs', 'packs_to_delete'})}: an index holding only marked packs is dropped although the old index files are removed")
+
+
+def safe_defaults_rule(ctx, rep, R):
+    """C10.g the protocol's safety margin is on by default: PruneOptions::default() does not delete instantly, does not
+    remove index files early and uses a non-zero keep-delete span (a concurrent backup that still references a pack
+    marked by this prune is protected for that long)."""
+    prog = ctx.prog
+    rep.rule(R, "default prune options keep the safety margin (no instant delete, no early index removal, non-zero keep-delete)")
+    D = prog.find1(r"^<rustic_core::commands::prune::PruneOptions as std::default::Default>::default$")
+    ag = [(bi, s_) for bi, blk in enumerate(D.blocks) for s_ in blk["s"] if s_[0] == "=" and s_[2][0] == "agg" and s_[2][1][0] == "adt" and s_[2][1][1].endswith("prune::PruneOptions")]
+    rep.require(R, "default/construction", len(ag) == 1, where=D.loc(), what="PruneOptions::default builds the options once")
+    if len(ag) != 1:
+        return
+    bi, s_ = ag[0]
+    names = s_[2][1][3]
+    vals = {n: flow.expr_of(D, o, bi) for n, o in zip(names, s_[2][2])}
+    for f in ("instant_delete", "early_delete_index"):
+        ok = vals.get(f) == ("const", False)
+        rep.check(R, f"default/{f}-off", ok, where=D.loc(), what=f"{f} is off by default" if ok else f"{f} is ON by default: a prune with default options removes files a concurrent backup may still rely on")
+    kd = vals.get("keep_delete")
+    okk = False
+    if kd and kd[0] == "call" and re.search(r"jiff::Span::(hours|days|minutes|weeks)$", kd[1]) and len(kd[2]) == 2 and kd[2][1][0] == "const" and isinstance(kd[2][1][1], int):
+        unit = kd[1].rsplit("::", 1)[-1]
+        mins = kd[2][1][1] * {"minutes": 1, "hours": 60, "days": 1440, "weeks": 10080}[unit]
+        okk = mins >= 60
+    rep.check(R, "default/keep-delete-nonzero", okk, where=D.loc(), what=f"the default keep-delete span is at least an hour ({kd[1].rsplit('::', 1)[-1]}({kd[2][1][1]}))" if okk else f"the default keep-delete span is not a span of at least an hour: {str(kd)[:120]}")
